@@ -648,3 +648,33 @@ def no_panic_load(db, ctx):
                        (" — allowed: " + allowed) if allowed else " — not in the allow-table"),
                    fn=f, site=s["sp"])
     ctx.ob("closure-size", n >= 60, "load closure has %d sudachi functions (floor 60)" % n, nontrivial=False)
+
+
+_UNCHECKED_MATRIX = ("Grammar::connect_cost", "ConnectionMatrix::cost", "ConnectionMatrix::update", "Grammar::set_connect_cost", "ConnectionMatrix::index",
+                     "inhibit_connection")
+
+
+@rule("C20.validate-before-use", "while a plugin is being set up, configured connection ids reach the connection matrix (whose accessors do not check "
+                                 "their arguments) only AFTER they were validated: in every plugin `set_up`, a call that indexes the matrix comes after the "
+                                 "check_left_id / check_right_id calls of that function, or takes ids that are themselves results of those checks — "
+                                 "otherwise an out-of-range id panics (debug) or reads an aliased cell (release) instead of being rejected")
+def validate_before_use(db, ctx):
+    n = 0
+    for f0 in db.fns.values():
+        if not (f0.hir and f0.name == "set_up" and "::plugin::" in f0.key and "::tests::" not in f0.key and f0.pkg == "sudachi"):
+            continue
+        f = db.view(f0)
+        n += 1
+        order = [x for x, _ in walk(f.hir)]
+        pos = {id(x): i for i, x in enumerate(order)}
+        checks = [pos[id(c)] for c in order if is_call(c) and path_ends(callee(c) or "", ("check_left_id", "check_right_id"))]
+        for c in order:
+            if is_call(c) and any(path_ends(callee(c) or "", s_) for s_ in _UNCHECKED_MATRIX):
+                ids = [a for a in call_args(c) if (peel_casts(a).get("ty") or "") in ("u16", "i16", "usize", "i64", "u32", "i32")]
+                from_checks = bool(ids) and all(any(o[0] == "call" and path_ends(o[1] if len(o) > 1 and isinstance(o[1], str) else "", ("check_left_id", "check_right_id"))
+                                                    for o in origins(db, f, a, depth=1)) for a in ids)
+                after = bool(checks) and pos[id(c)] > max(checks)
+                ctx.ob("%s|%s|validated-first" % (f.short(), short_path(callee(c)).split("::")[-1]), from_checks or after,
+                       "%s calls %s with configured ids %s the validation (check_left_id / check_right_id)" % (
+                           f.short(), short_path(callee(c)), "after" if (from_checks or after) else "BEFORE"), fn=f, site=c.get("sp"))
+    ctx.ob("set_up-functions", n >= 8, "%d plugin set_up functions inspected (floor 8)" % n, nontrivial=False)
